@@ -191,6 +191,24 @@ func propMWU(a *Analysis, r *Registry, which string) {
 			}
 			b.Eq("B-C01 rank-pass", name+"/tie-loop-condition", b.pos(fn), pfc.ReachCondFrom(ph.Block(), body), env, "iI<len(merged) && merged[iI]==merged[iO]")
 		})
+		// the rank pass goes on exactly while samples are left (a pass that stops early, or never
+		// starts, leaves ranks unassigned: R1 too small)
+		b.guard("B-C01 rank-pass", name+"/rank-loop-condition", func() {
+			oat := vars["iO"].SingleAtom()
+			if oat == nil || X.phiOf[oat.ID] == nil {
+				anchorFail("the rank loop's position is not a loop-carried value")
+			}
+			ph, pfc := X.phiOf[oat.ID], X.phiFC[oat.ID]
+			l, guard, gblocks, msg := b.loopGuard(pfc, ph.Block())
+			if msg != "" {
+				r.Fail("B-C01 rank-pass", name+"/rank-loop-condition", b.pos(fn), msg)
+				return
+			}
+			b.Eq("B-C01 rank-pass", name+"/rank-loop-condition", b.pos(fn), guard, env, "iO<len(merged)")
+			if m := b.leftEarly(pfc, l, gblocks); m != "" {
+				r.Fail("B-C01 rank-pass", name+"/rank-loop-exits", b.pos(fn), m)
+			}
+		})
 		b.guard(rB, name+"/U2", func() {
 			want := env.MustParse("fmin(U1, n1*n2-U1)")
 			for _, c := range fc0.CallsTo("math.Min") {
